@@ -474,6 +474,9 @@ Inductive decl :=
 | DTup (d : decl)            (* Tuple[d, Integer] *)
 | DRaw (o : obj)             (* Anything, holding the plain python data o *)
 | DMapRaw (o : obj)          (* Map() without items, both values the plain python data o *)
+| DArrRaw (o : obj)          (* Array() without items, both elements the plain python data o *)
+| DDeqRaw (o : obj)          (* Deque() without items, both elements the plain python data o *)
+| DArrPre (o : obj)          (* Array(items=[Integer]) positional prefix + one free-form element o *)
 | DRef (imm : bool).         (* a field of class Inner / IInner { a = Integer; l = Array[Integer] } *)
 
 (* guard and binding of a wrapper created at nesting depth [depth] (0 = the field's own value) *)
@@ -496,6 +499,9 @@ Fixpoint build (c : cfg) (depth : nat) (d : decl) : obj :=
   | DTup d' => Box KTuple NoWrap [build c (S depth) d'; Atom 7]
   | DRaw o => o
   | DMapRaw o => Box KDict (wrap_at c depth) [o; o]
+  | DArrRaw o => Box KList (wrap_at c depth) [o; o]
+  | DDeqRaw o => Box KDeque (wrap_at c depth) [o; o]
+  | DArrPre o => Box KList (wrap_at c depth) [Atom 1; o]
   | DRef false => Box KStruct NoWrap [Atom 1; Box KList (Wrap false (BInner false)) [Atom 1; Atom 0]]
   | DRef true => Box KImmStruct NoWrap [Atom 1; Box KList (Wrap true (BInner true)) [Atom 1; Atom 0]]
   end.
@@ -511,7 +517,8 @@ Definition is_box (o : obj) : bool := match o with Box _ _ _ => true | Atom _ =>
 Definition incoming_tynames (d : decl) : list pystr :=
   match d with
   | DAtom => [s2p "int"]
-  | DArr _ => [s2p "list"] | DDeq _ => [s2p "deque"] | DMap _ | DMapRaw _ => [s2p "dict"]
+  | DArr _ | DArrRaw _ | DArrPre _ => [s2p "list"] | DDeq _ | DDeqRaw _ => [s2p "deque"]
+  | DMap _ | DMapRaw _ => [s2p "dict"]
   | DSet | DISet => [s2p "set"] | DTup _ => [s2p "tuple"]
   | DRaw o => tynames o
   | DRef false => [s2p "Structure"] | DRef true => [s2p "ImmutableStructure"; s2p "Structure"]
@@ -523,6 +530,14 @@ Definition incoming_passes (c : cfg) (d : decl) : bool :=
   | DAtom | DRef true => false      (* sharing an immutable object is not an alias that can be used *)
   | _ => existsb (fun t => str_in t (c_types_setattr c)) (incoming_tynames d)
   end.
+
+(* an UNTYPED Array / Deque (no item field rebuilds or copies the elements): the free-form elements are the caller's
+   own objects unless _ListStruct / _DequeStruct.__init__ defensively copies its input, or Field.__set__ deep-copies
+   the wrapper (it does not when an immutable wrapper is in its tuple of types handed on as they are) *)
+Definition raw_seq_alias (c : cfg) (k : okind) (o : obj) (ps : list path) : list path :=
+  if c_field_imm c && c_init_copies c k then []
+  else if c_field_imm c && c_copies_set c && negb (str_in (s2p "ImmutableMixin[immutable]") (c_types_set c)) then []
+  else if is_box o then ps else [].
 
 (* what is aliased when nothing above the field copies *)
 Fixpoint field_level_alias (c : cfg) (d : decl) : list path :=
@@ -537,6 +552,9 @@ Fixpoint field_level_alias (c : cfg) (d : decl) : list path :=
       if c_field_imm c && c_init_copies c KDict then []
       else if c_field_imm c && c_copies_set c && negb (c_map_custom_deepcopy c) then []
       else (map (cons 0) (field_level_alias c d') ++ map (cons 1) (field_level_alias c d'))%list
+  | DArrRaw o => raw_seq_alias c KList o [[0]; [1]]
+  | DDeqRaw o => raw_seq_alias c KDeque o [[0]; [1]]
+  | DArrPre o => raw_seq_alias c KList o [[1]]
   | DRaw o => if c_field_imm c && c_copies_set c && negb (passes (c_types_set c) o) then []
               else if is_box o then [[]] else []
   | DRef false => if c_field_imm c && c_copies_set c then [] else [[]]
